@@ -12,13 +12,18 @@
       - bounded: [C07_small], the complete round trip (no class excluded) for every graph of a
         stated finite family and every iteration order of the ring-edge set (vm_compute);
       - refuted: the witness of the open class; fixed: the former witnesses of the two repaired classes.
-    Not proved: the round trip for arbitrary trees/rings (C07_partial over all graphs) and that the Gallina DFS
-    spans every connected graph (checked per case by [ring_contract]/[wf_C07] at run time instead). *)
+    Wave 2 (below): the complete round trip for ALL TREES ([C07_tree_roundtrip]), the writer on ALL graphs
+    ([C07_write_graph_is_print]), DFS spanning on ALL connected graphs ([C07_dfs_spanning]), the ring-marker
+    allocator and its contract ([C07_get_ring_marker_spec], [C07_marks_invariant], [C07_no_open_ring]).
+    Not proved: the READ-BACK of ring-closing edges for arbitrary graphs (only bounded, [C07_small]); that the
+    recorded ring transcript is the set of non-tree edges is a contract evaluated per case ([ring_contract]). *)
 From Coq Require Import String.
 From Coq Require Import List Ascii ZArith Bool.
 From CGV Require Import Base.PyBase Base.PyVal Base.NxGraph Write.WriteImpl Write.WriteDefs Write.WriteCheck
      Write.WriteProofs Write.WriteRound Write.WriteDfsSmall Write.PathRound.
 From CGV Require Import Dialect.DialectImpl Reader.ReaderImpl Reader.Grammar.
+From CGV Require Import Write.TreeDefs Write.TreeWrite Write.TreeTables Write.DfsProofs Write.WfFacts Write.ConnFacts Write.TreeRead
+     Write.TreeRound Write.RingDefs Write.RingWrite Write.RingTables Write.RingMarkers Write.RingClose.
 Import ListNotations.
 Open Scope Z_scope.
 
@@ -101,6 +106,86 @@ Proof. exact WriteRound.C07_small_nonvacuous. Qed.
 Theorem C07_dfs_spanning_small : forall g, In g small_all -> wf_C07 g = true -> dfs_spans g = true.
 Proof. exact dfs_spanning_small. Qed.
 
+
+(** ================================================================ wave 2: trees, DFS, rings (all unbounded) *)
+
+(** UNBOUNDED round trip for TREES: every plain graph (string names, integer orders 0..4 on every adjacency entry,
+    no aromatic/bonding attribute) without non-tree edges -- any branching, any depth -- is written by
+    write_cgsmiles_graph and read back by the reader model (via the reader component's reader_sim_lin) as [gtree]
+    of its own DFS tree T: the same tree, numbered in the order of writing, with the attributes the node parser
+    gives for the same names and the same orders.  No class excluded. *)
+Theorem C07_tree_roundtrip : forall fo A g start,
+  plain_graph g = true -> min_node g = Ok start ->
+  nontree_edges g (dfs_tree g) = [] ->
+  (forall k, In k (node_keys g) -> name_ok fo (name_of g k) = true) ->
+  (forall k, parse_graph_base_node fo (name_of g k) = Ok (A k)) ->
+  exists s T, write_cgsmiles_graph g [] = Ok s
+              /\ rkey T = start /\ dfs_edges g start = Ok (redges T) /\ NoDup (rkeys T)
+              /\ (forall x, reachable g start x -> In x (rkeys T))
+              /\ read_cgsmiles fo s = Ok (gtree (esym_of g) A gempty 0 None 1 T).
+Proof. exact tree_graph_roundtrip. Qed.
+Example C07_tree_roundtrip_nonvacuous :
+  let fo : float_oracle := fun _ => None in
+  plain_graph ex_tree = true /\ min_node ex_tree = Ok 2 /\ nontree_edges ex_tree (dfs_tree ex_tree) = []
+  /\ forallb (fun k => name_ok fo (name_of ex_tree k)) (node_keys ex_tree) = true
+  /\ write_cgsmiles_graph ex_tree [] = Ok (S "{[#C]([#D]$([#PEO])#[#E]).([#B])=[#A]}")
+  /\ WriteRound.roundtrip_code ex_tree [] = 0%nat.
+Proof. exact tree_roundtrip_example. Qed.
+
+(** the writer on ANY graph: write_graph is the recursive printer [wtextR] of the graph's own DFS tree, with the
+    ring-marker table threaded through the traversal in the order of writing (both modes, any ring transcript) *)
+Theorem C07_write_graph_is_print : forall sf dh g tr start,
+  graph_wf g = true -> min_node g = Ok start ->
+  (forall k, In k (node_keys g) -> exists s, node_text sf dh g k = Ok s) ->
+  (forall p k, In k (neighbors g p) -> exists s, edge_text g p k = Ok s) ->
+  (forall bond, In bond tr -> exists s, edge_text g (fst bond) (snd bond) = Ok s) ->
+  exists T, rkey T = start /\ dfs_edges g start = Ok (redges T) /\ NoDup (rkeys T) /\
+    let ntext := fun k => match node_text sf dh g k with Ok s => s | Err _ => [] end in
+    let stext := fun p k => match edge_text g p k with Ok s => s | Err _ => [] end in
+    write_graph_full sf dh g tr
+    = Ok (let '(tx, mk', trc) := wtextR sf ntext stext (rlist_of tr) (rsymt_of (edge_text g) tr) None false 0 [] T in
+          {| r_text := tx; r_visit := worder T; r_mtrace := trc |}).
+Proof. exact write_graph_is_print. Qed.
+
+(** the model of networkx dfs_successors on EVERY well-formed connected graph: it returns (the depth fuel
+    suffices), visits every node exactly once, uses only graph edges, one predecessor per non-start node *)
+Theorem C07_dfs_spanning : forall g start, graph_wf g = true -> connected g = true -> min_node g = Ok start ->
+  exists T, rkey T = start /\ dfs_edges g start = Ok (redges T) /\ dfs_visited g start = Ok (rkeys T)
+            /\ NoDup (rkeys T)
+            /\ (forall x, In x (rkeys T) <-> In x (node_keys g))
+            /\ length (rkeys T) = length (node_keys g)
+            /\ (forall e, In e (redges T) -> In (snd e) (neighbors g (fst e)))
+            /\ map snd (redges T) = tl (rkeys T)
+            /\ (forall x, In x (node_keys g) -> x <> start -> exists! p, In (p, x) (redges T)).
+Proof. exact dfs_spanning_wf. Qed.
+
+(** ring markers: _get_ring_marker returns the lowest positive integer not in use *)
+Theorem C07_get_ring_marker_spec : forall used,
+  let r := get_ring_marker used in
+  (1 <= r)%nat /\ ~ In r used /\ (forall j, (1 <= j < r)%nat -> In j used).
+Proof. exact get_ring_marker_spec. Qed.
+(** the allocator contract (open rings have pairwise different indices and pairwise different positive markers)
+    is an invariant of the whole loop of write_graph *)
+Theorem C07_marks_invariant : forall env fuel st st',
+  marks_ok (w_marks st) -> wloop fuel env st = Ok st' -> marks_ok (w_marks st').
+Proof. exact wloop_marks_ok. Qed.
+(** every ring edge whose two ends are written is met exactly twice in the order of writing (opened at the end
+    written first, closed at the other), and no marker is left open at the end *)
+Theorem C07_ring_met_twice : forall tr ws ri a b, NoDup ws -> (forall e, In e tr -> In (fst e) ws /\ In (snd e) ws) ->
+  In (ri, (a, b)) (combine (seq 1 (length tr)) tr) -> occ ri (flat_map (rlist_of tr) ws) = 2%nat.
+Proof. exact ring_seq_twice. Qed.
+Theorem C07_no_open_ring : forall sf ntext stext rsymt tr T p isb d,
+  NoDup (worder T) -> (forall e, In e tr -> In (fst e) (worder T) /\ In (snd e) (worder T)) ->
+  snd (fst (wtextR sf ntext stext (rlist_of tr) rsymt p isb d [] T)) = [].
+Proof. exact no_open_ring. Qed.
+
+Print Assumptions C07_tree_roundtrip.
+Print Assumptions C07_write_graph_is_print.
+Print Assumptions C07_dfs_spanning.
+Print Assumptions C07_get_ring_marker_spec.
+Print Assumptions C07_marks_invariant.
+Print Assumptions C07_ring_met_twice.
+Print Assumptions C07_no_open_ring.
 Print Assumptions C07_dfs_spanning_small.
 Print Assumptions C07_write_chain_transcript.
 Print Assumptions C07_dfs_path.
